@@ -45,6 +45,61 @@ HANDWRITTEN = [
     ("HwSparse", [("None_", 0), ("Low", 7), ("Edge", 252), ("Over", 253), ("Big", 64008), ("Huge", 16194276)]),
     ("HwSingle", [("Only", 5)]),
 ]
+HOOKED_SOURCE = '''
+class HwMissingHook(IntEnum, metaclass=ProtocolEnumMeta):
+    """a user-defined _missing_ (the case-insensitive name lookup recipe): returns None for integers"""
+    North = 0
+    South = 1
+
+    @classmethod
+    def _missing_(cls, value):
+        if isinstance(value, str):
+            for member in cls:
+                if member.name.lower() == value.lower():
+                    return member
+        return None
+
+
+_LABELS = {0: "wave", 1: "bow", 7: "dance"}
+
+
+class HwInitHook(IntEnum, metaclass=ProtocolEnumMeta):
+    """a user-defined __init__ that only works for declared members"""
+    Wave = 0
+    Bow = 1
+    Dance = 7
+
+    def __init__(self, ordinal):
+        self.label = _LABELS[ordinal]
+
+
+class HwTupleMembers(IntEnum, metaclass=ProtocolEnumMeta):
+    """members declared as (ordinal, label) pairs through __new__"""
+    def __new__(cls, ordinal, label):
+        obj = int.__new__(cls, ordinal)
+        obj._value_ = ordinal
+        obj.label = label
+        return obj
+
+    Sword = (3, "sword")
+    Shield = (4, "shield")
+
+
+class HwBase(IntEnum, metaclass=ProtocolEnumMeta):
+    def describe(self):
+        return f"{self.name}={int(self)}"
+
+
+class HwDerived(HwBase):
+    One = 1
+    Two = 2
+'''
+HOOKED = [
+    ("HwMissingHook", [(0, "North"), (1, "South")], "hw/missing-hook"),
+    ("HwInitHook", [(0, "Wave"), (1, "Bow"), (7, "Dance")], "hw/init-hook"),
+    ("HwTupleMembers", [(3, "Sword"), (4, "Shield")], "hw/tuple-members"),
+    ("HwDerived", [(1, "One"), (2, "Two")], "hw/derived"),
+]
 SPECIAL = [0, 1, 2, 3, 251, 252, 253, 254, 255, 256, 64007, 64008, 64009, 64010, 16194276, 16194277, 253 ** 4 - 1,
            253 ** 4, 2 ** 31, 2 ** 63, 2 ** 64 + 1, -1, -2, -253]
 
@@ -126,6 +181,10 @@ def execute(plan, env):
         src = f"class {name}(IntEnum, metaclass=ProtocolEnumMeta):\n" + "".join(f"    {m} = {o}\n" for m, o in members)
         exec(src, ns)
         classes.append((ns[name], {o: m for m, o in members}, f"hw/{'sparse' if name == 'HwSparse' else 'dense'}/{int(any(m == 'None_' for m, _ in members))}"))
+    # hand-written enums that use the hooks the enum module documents for user classes
+    exec(HOOKED_SOURCE, ns)
+    for name, members, shape in HOOKED:
+        classes.append((ns[name], dict(members), shape))
     for ename in sorted(te.spec.enums):
         ed = te.spec.enums[ename]
         cls = te.bridge.cls(ename)
